@@ -125,7 +125,7 @@ func errClass(err error) string {
 		return "rej:not-within-bounds"
 	case strings.Contains(s, "inconsistent with fact"):
 		return "rej:inconsistent-fact"
-	case strings.Contains(s, "cannot prove"):
+	case strings.Contains(s, "cannot prove"), strings.Contains(s, "could not prove"):
 		return "rej:cannot-prove"
 	case strings.Contains(s, "shift op argument"):
 		return "rej:shift-arg"
